@@ -50,6 +50,8 @@ def gen(rng, n):
         v = v / np.abs(v).sum() * float(rng.uniform(0.3, 0.9))
         eps = float(10 ** rng.uniform(-5, -4))
     suc = float(1 - 10 ** rng.uniform(-5, -2))
+    if rng.random() < 0.12:
+        eps, suc = 1e-4, 1 - 1e-4                          # the library defaults (the call then leaves them out)
     if rng.random() < 0.15:
         eps = float(rng.choice([1e-5, 1e-2]))            # corners of the stated box
         suc = float(rng.choice([0.99, 1 - 1e-5]))
@@ -97,7 +99,11 @@ def one(ctx, A, p, klass, eps, suc, box, bits_vec):
     SESSION.append({"p": list(p), "eps": eps, "suc": suc, "seed_bits": bits_vec, "special": n == 0 or not box})
     try:
         with core.quiet(), P.forced_seed(bits_vec):
-            ph = A.angle_sequence(list(p), eps=eps, suc=suc)
+            if (eps, suc) == (1e-4, 1 - 1e-4):
+                ctx.count("settings:library-defaults")
+                ph = A.angle_sequence(list(p))
+            else:
+                ph = A.angle_sequence(list(p), eps=eps, suc=suc)
         out = ("ok", [float(x) for x in ph])
         core.poison(ph)
     except Exception as e:  # noqa
@@ -244,6 +250,15 @@ def run(tier, seed):
         vecs, complete = P.seed_vectors(rng, n, 3, 4)
         for bv in vecs:
             one(ctx, A, p, "near-collision", eps, suc, box, bv)
+    # beyond the box (n = 14 .. 24, where raising is legitimate): whatever IS returned must honour the budget - ill-conditioned
+    # inputs (exactly zero end coefficients, tight eps) are where a weakened final check would let wrong phases through
+    for n in ((14, 16, 18, 20, 22, 24) if tier == "quick" else list(range(13, 25)) * 3):
+        v = rng.normal(size=n + 1)
+        v[0] = v[-1] = 0.0
+        if rng.random() < 0.5:
+            v[1] = v[-2] = 0.0
+        v = v / np.abs(v).sum() * float(rng.uniform(0.5, 0.9))
+        one(ctx, A, [float(x) for x in v], "ill-conditioned/beyond-box", 1e-5, 1 - 1e-5, False, [int(b) for b in rng.integers(0, 2, size=64)])
     # a block of its own for that class: decaying vectors, the tightest budget, several root choices each
     for _ in range(12 if tier == "quick" else 60):
         n = int(rng.integers(8, 13))
